@@ -86,6 +86,8 @@ type step struct {
 	Len  int        `json:"len"`
 	Hdr  header     `json:"hdr"`
 	Runs [][2]int   `json:"runs"`
+	PLen int        `json:"plen"`
+	PHdr header     `json:"phdr"`
 	PC   *proofCase `json:"pc"`
 }
 
@@ -420,6 +422,17 @@ func (r *runner) run(steps []step) int {
 		}
 		if !r.checkHeader(at, r.acc.GetMerkleHeader(), s) {
 			return i
+		}
+		// the persisted record: a second accumulator opened on the same buckets (SetLen(0) leaves the record behind)
+		probe, err := hexary.NewAccumulator(r.tb, r.ab, "")
+		if err != nil {
+			r.viol("hexary:reopen:error", "%s: %v", at, err)
+			return i
+		}
+		ph := probe.GetMerkleHeader()
+		if probe.Len() != int64(s.PLen) || !bytes.Equal(ph.RootHash, r.w.eval(&s.PHdr.Root)) {
+			r.diverge("%s: an accumulator opened on the persisted record has length %d header %x, spec says %d / %x", at, probe.Len(),
+				ph.RootHash, s.PLen, r.w.eval(&s.PHdr.Root))
 		}
 	}
 	return -1
